@@ -34,6 +34,18 @@ const NUMS: [&str; 14] = [
     "999999999999999999",
 ];
 
+/// Short literals of the library's version / pattern / name code that can
+/// stand inside a version string.
+fn source_literals() -> &'static [&'static str] {
+    static L: std::sync::OnceLock<Vec<&'static str>> = std::sync::OnceLock::new();
+    L.get_or_init(|| {
+        crate::corpus::literal_strs(&["dewey", "pattern", "pkgname", "depend"])
+            .into_iter()
+            .filter(|s| s.len() <= 16 && !s.contains(|c| matches!(c, '-' | '<' | '>' | '{' | '}' | '\n')) && !s.contains(' '))
+            .collect()
+    })
+}
+
 /// Does the string respect the bounds all comparison monitors rely on?
 /// (digit runs <= 18, none of `- < > { }`, no leading `=`).
 pub fn usable(v: &str) -> bool {
@@ -170,6 +182,12 @@ fn token(r: &mut Rng, letters: bool, junk: bool) -> String {
             88..=91 => {
                 if !letters {
                     continue;
+                }
+                // a string literal of the library's own source (dewey / pattern /
+                // pkgname): whatever token the code knows, the versions contain
+                let lits = source_literals();
+                if !lits.is_empty() && r.chance(1, 4) {
+                    return lits[r.below(lits.len())].to_string();
                 }
                 if r.chance(1, 3) {
                     WORDS[r.below(WORDS.len())].to_string()
